@@ -50,21 +50,50 @@ func ColumnValueParser(cv *colval.ColumnValue) parse.Func {
 	)
 }
 
+var primaryKeyRE = regexp.MustCompile(`^(?i:primary\s+key)\b`)
+var notNullRE = regexp.MustCompile(`^(?i:not\s+null)\b`)
+
+// words matches a keyword of several words after optional white space.
+func words(re *regexp.Regexp) parse.Func {
+	return parse.SeqWS(parse.RE(re, func([]string) bool { return true }))
+}
+
+// list is parse.Delimited without its tolerance for a delimiter that no term
+// follows: the dangling delimiter is left unconsumed, so the caller's check
+// for the end of the input fails.
+func list(term, delimiter parse.Func) parse.Func {
+	return func(e *parse.Parser) bool {
+		if !term(e) {
+			return false
+		}
+		for {
+			before := *e
+			if !delimiter(e) {
+				return true
+			}
+			if !term(e) {
+				*e = before
+				return true
+			}
+		}
+	}
+}
+
 func Schema(s *types.Schema, errs *[]error) parse.Func {
 	return func(b *parse.Parser) bool {
 		var col, coltype, name string
 		return b.Match(
-			parse.Delimited(
+			list(
 				parse.OneOf(
 					parse.SeqWS(
-						parse.CI("primary"), parse.CI("key"),
+						words(primaryKeyRE),
 						parse.Exact("(").
 							Action(func() {
 								if len(s.PrimaryKey) > 0 {
 									*errs = append(*errs, errors.New("PRIMARY KEY specified multiple times"))
 								}
 							}),
-						parse.Delimited(
+						list(
 							parse.SeqWS(
 								SQLName(&col).
 									Action(func() {
@@ -84,7 +113,7 @@ func Schema(s *types.Schema, errs *[]error) parse.Func {
 						}),
 						parse.Multiple(
 							parse.OneOf(
-								parse.SeqWS(parse.CI("primary"), parse.CI("key")).
+								words(primaryKeyRE).
 									Action(func() {
 										if len(s.PrimaryKey) > 0 {
 											*errs = append(*errs, errors.New("PRIMARY KEY already specified"))
@@ -96,7 +125,7 @@ func Schema(s *types.Schema, errs *[]error) parse.Func {
 									s.Columns[len(s.Columns)-1].Unique = true
 									*errs = append(*errs, errors.New("UNIQUE is not supported yet"))
 								}),
-								parse.SeqWS(parse.CI("not"), parse.CI("null")).Action(func() {
+								words(notNullRE).Action(func() {
 									s.Columns[len(s.Columns)-1].NotNull = true
 								}),
 							)))),
